@@ -6,6 +6,7 @@ import math
 import os
 import subprocess
 import sys
+import time
 
 sys.path.insert(0, os.path.join(os.path.dirname(__file__), ".."))
 
@@ -587,6 +588,25 @@ FAMILIES = {
     "koltsov3": (PG.koltsov3, spec_koltsov3, lambda c: [(n, 2, k, 1) for n in range(5, c + 1) for k in range(0, n - 3)] + [(n, 1, k, d) for n in range(3, min(c, 8) + 1) for k in range(0, n) for d in range(1, n - k)]),
 }
 
+# families whose `generated = specification` theorems live in each module, and parameter grids beyond the usual cap for
+# the directed search (kept small where the number of generators grows fast)
+GEN_FAMILIES = {
+    "C15g2": ["all_transpositions", "full_reversals", "transposons", "block_interchange", "signed_reversals"],
+    "C15g3": ["lx", "lrx", "pancake", "coxeter", "cyclic_coxeter", "stars", "top_spin", "larx", "generalized_stars", "burnt_pancake", "cubic_pancake"],
+    "C15g4": ["prefix_cycles", "consecutive_k_cycles", "down_cycles", "three_cycles_01i", "wrapped_k_cycles", "lsl_cycles"],
+    "C15g5": ["rapaport_m2", "koltsov3", "rapaport_m1", "sheveleva2"],
+}
+BIG_PARAMS = {
+    "transposons": lambda: rng_n(9, 14),
+    "block_interchange": lambda: rng_n(8, 11),
+    "signed_reversals": lambda: rng_n(9, 24),
+    "burnt_pancake": lambda: rng_n(9, 40),
+    "all_transpositions": lambda: rng_n(10, 40),
+    "full_reversals": lambda: rng_n(10, 40),
+    "down_cycles": lambda: rng_n(10, 40),
+    "koltsov3": lambda: [(n, 2, k, 1) for n in (13, 20, 31, 40) for k in range(0, n - 3)] + [(n, 1, k, d) for n in (9, 14, 21) for k in range(0, n) for d in range(1, n - k)],
+}
+
 LOOKUP = {  # prepare_graph name -> (constructor, needs)
     "lx": (PG.lx, "n"),
     "lrx": (PG.lrx, "n"),
@@ -677,13 +697,15 @@ def check_family(ck, fam, ctor, spec, args, orders_jobs):
 
 def main():
     ck = Check("C15")
+    broken_gen = []
     ck.lean_obligations("CvProps.C15", THEOREMS)
     if not ck.replay:
         from cv.pygen_corr import gen_tie  # noqa: E402
 
         for mod, thms in GEN_MODULES.items():
             if thms and os.path.exists(os.path.join(VERIF, "lean", "CvProps", mod + ".lean")):
-                ck.gen_obligations("CvProps." + mod, thms, "translated source")
+                if not ck.gen_obligations("CvProps." + mod, thms, "translated source"):
+                    broken_gen.append(mod)
         gen_tie(ck, None, [], ("fam",))
     cap = 9 if not ck.thorough else 12
     only = None
@@ -698,6 +720,25 @@ def main():
             if ck.enough():
                 break
             check_family(ck, fam, ctor, spec, args, jobs)
+    # Directed search: a theorem `translated constructor ∘ create = specification` no longer checks against the current
+    # source.  That is not a violation by itself; the families of the broken module are now compared with the
+    # specification far beyond the usual parameter cap (the theorems were about ALL parameters, so the difference may
+    # lie anywhere), within a time budget.
+    if broken_gen and not ck.violations and not only:
+        t_end = time.time() + float(os.environ.get("CV_GEN_SEARCH_BUDGET", "150"))
+        for mod in broken_gen:
+            for fam in [f for f in GEN_FAMILIES.get(mod, []) if f in FAMILIES]:
+                ctor, spec, params = FAMILIES[fam]
+                seen = set(params(cap))
+                big = BIG_PARAMS.get(fam) or (lambda: [a for c in (14, 20, 27, 33, 40) for a in params(c)][:: 1])
+                todo = [a for a in big() if a not in seen]
+                # spread over the range rather than the smallest first
+                todo = todo[:: max(1, len(todo) // 60)]
+                for args in todo:
+                    if time.time() > t_end or ck.violations:
+                        break
+                    ck.count("directed-search:" + fam)
+                    check_family(ck, fam, ctor, spec, args, {})
     # group orders where the documentation names the group (S_n, A_n, hyperoctahedral), enumerable sizes
     orders = sympy_orders({k: v[0] for k, v in jobs.items()})
     ck.extra["group_orders_checked"] = len(orders)
